@@ -227,7 +227,13 @@ impl<'a> Sess<'a> {
             return;
         }
         let sk = self.sk[id].as_ref().unwrap();
-        let v = json!({"op":"Chk","id":id,"st":full(&sk.verif_state()),"o":obs(sk)});
+        let mut v = json!({"op":"Chk","id":id,"st":full(&sk.verif_state()),"o":obs(sk)});
+        if sk.lg_config_k() <= 10 {
+            let f = crate::fam_hllfmt::own_image_fields(sk);
+            v["img"] = f["img"].clone();
+            v["fb"] = f["fb"].clone();
+            v["auxo"] = f["auxo"].clone();
+        }
         self.out.ev(v);
     }
 
